@@ -110,7 +110,7 @@ impl Check for C11 {
                 continue;
             }
             if r.below(10) < zone_rate {
-                let (tz, off) = match r.below(8) { 0 => ("NOPE".to_string(), None), 1 => ("QQQQ".to_string(), None), 2 | 3 => { let (z, o) = g.zone(&mut r); (z, Some(o)) } _ => { let (z, o) = r.pick(&g.zones).clone(); (z, Some(o)) } };
+                let (tz, off) = match r.below(9) { 0 => ("NOPE".to_string(), None), 1 => ("QQQQ".to_string(), None), 8 => (format!("{}{}", r.pick(&g.zones).0, r.pick(&["/EDT", ",", "/", ".", ")", ", x", "/Berlin"])), None), 2 | 3 => { let (z, o) = g.zone(&mut r); (z, Some(o)) } _ => { let (z, o) = r.pick(&g.zones).clone(); (z, Some(o)) } };
                 events.push(Event { actor: ADMIN, op: Op::Admin(AdminOp::SetTimezone { tz: tz.clone() }), clock: ClockScript::Frozen { t } });
                 if let Some(o) = off { if r.chance(1, 3) { if let Some(z2) = g.same_offset_other_spelling(&mut r, &tz, o) { events.push(Event { actor: ADMIN, op: Op::Admin(AdminOp::SetTimezone { tz: z2 }), clock: ClockScript::Frozen { t } }); } } }
                 continue;
